@@ -72,6 +72,7 @@ type Case struct {
 	Files       []FileSpec `json:"files"`
 	Ops         []Op       `json:"ops"`
 	FinalChunk  uint32     `json:"final_chunk"` // buffer size of the closing sequential whole-file read
+	Conc        *ConcSpec  `json:"conc,omitempty"` // concurrent scenario (Files/Ops unused), see conc.go
 	Desc        string     `json:"desc,omitempty"`
 }
 
@@ -364,6 +365,9 @@ func RunCase(c *Case) (err error) {
 	}()
 	if c.ClientMsize < 64 || c.ServerMsize < 64 {
 		return fmt.Errorf("harness: msize below 64 is outside this check's grid")
+	}
+	if c.Conc != nil {
+		return runConc(c)
 	}
 	root, e := os.MkdirTemp("/tmp", "c14-")
 	if e != nil {
